@@ -345,6 +345,42 @@ def run_concurrent(spec, acc):
             sim, stats = concurrent_session(kind, msgs, plan, stagger, subclass=app_subclass)
             acc.count("sessions_with_an_application_subclass_of_the_client")
             judge_concurrent(sim, stats, kind, msgs, plan, stagger, acc, lambda m_: True)
+        # (b3) the same short multi-packet-type message (its payload fits the first frame: one packet) sent again and again, then a
+        # long one, one after the other: every message is written whole, and consecutive messages of the stream carry different
+        # sequence counters (a receiver drops a first frame whose counter it has just seen)
+        for rep in range((4 if quick else 40) if box["_seam"] else 0):
+            src = 70 + rep % 5
+            box[src] = bytes((rep + 3 * k) % 256 for k in range(rng.randint(1, 5)))
+            short = NMEA2000Message(PGN=STUB_PGN, id="verifStub", priority=3, source=src, destination=255)
+            n_rep = rng.randint(2, 5)
+
+            async def scenario_rp(sim, short=short, n_rep=n_rep):
+                sim.spawn("connect")
+                await asyncio.sleep(0.1)
+                conn = sim.conns[-1]
+                sim.sent_from = len(conn.written)
+                for _ in range(n_rep):
+                    await sim.call("send", short)          # the very same object, as an application with one message per PGN does
+                    await asyncio.sleep(0.05)
+                await sim.call("send", copy.deepcopy(short))
+                await asyncio.sleep(0.5)
+                await sim.close_guarded()
+            sim, stats = simgw.run_session(kind, scenario_rp)
+            acc.count("sessions")
+            acc.count("sessions_repeating_a_one_packet_message")
+            if stats["error"] or not sim.conns:
+                acc.inconclusive_because(f"simulator: {stats['error']}")
+                continue
+            pk_ = parse_log(kind, b"".join(d_ for _, d_ in sim.conns[-1].written[sim.sent_from:]))
+            w_ = {"client": kind, "repeats": n_rep, "payload_hex": bytes(box[src]).hex()}
+            acc.case((kind, "repeat", n_rep, bytes(box[src])))
+            if pk_ is None or len(pk_) != n_rep + 1 or any(f_[1:2 + len(box[src])] != bytes([len(box[src])]) + bytes(box[src]) for _, f_ in pk_):
+                acc.violation("message-packets-differ-from-encoder", f"{kind}: a one-packet message sent {n_rep + 1} times: the wire carries {None if pk_ is None else len(pk_)} packets / other content", w_)
+            else:
+                ctrs = [f_[0] >> 5 for _, f_ in pk_]
+                if any(a_ == b_ for a_, b_ in zip(ctrs, ctrs[1:])):
+                    acc.violation("same-sequence-counter-in-consecutive-messages", f"{kind}: a one-packet message sent {n_rep + 1} times in a row went out with sequence counters {ctrs}: "
+                                  "consecutive messages of a stream carry different counters", w_)
         # (c) a sender that stops: the task awaiting send() is cancelled while its message is partly written (parked in
         # drain()), another send() is queued behind it. What was written of the first message stays a prefix; nothing of it
         # may follow once the second message has started, and the second goes out whole.
